@@ -11,7 +11,7 @@ from props import bf3common as B
 from props import bec2common as C
 
 GEN_DEPS = ("Consts.v", "gen_consts", "Crc.v", "gen_crc")
-MODEL_TARGETS = ["Model/Bec2.vo", "Model/Bec2Eq.vo", "Model/Bf3Eq.vo", "Model/Cbc.vo"]
+MODEL_TARGETS = ["Model/Bec2.vo", "Model/Bec2Eq.vo", "Model/Bf3Eq.vo", "Model/Cbc.vo", "Model/Aes.vo"]
 IMPORTS = C.IMPORTS
 
 
@@ -78,6 +78,57 @@ def correspondence(ctx):
     for i in bad[:10]:
         ctx.broken("correspondence: Model.Bec2 differs from the implementation on %s" % descr[i][0],
                    repr(descr[i])[:1800])
+    correspondence_real_aes(ctx)
+
+
+AES_COQ = """From Bec2 Require Import Model.Aes.
+Definition aes_enc (k : bytes) (iv : option bytes) (d : bytes) := adapter_encrypt aes_E k iv d.
+Definition aes_dec (k : bytes) (iv : option bytes) (d : bytes) := adapter_decrypt aes_D k iv d.
+Definition aes_mac (k : bytes) (iv : option bytes) (d : bytes) := adapter_mac aes_E k iv d.
+Definition a_write := bec2_write_file aes_enc aes_mac sha_oracle toy_pub_of toy_ecdh toy_keygen.
+Definition a_read := bec2_read_file aes_dec aes_mac sha_oracle toy_valid_pub toy_ecdh toy_rand16.
+"""
+
+
+def correspondence_real_aes(ctx):
+    """BEC2 write/read with the REAL AES plug-in (toy ECC only) against the model over the
+    pyaes model of C16"""
+    r = ctx.rng
+    exprs, descr = [], []
+    C.SHA.clear()
+    with C.sha_recording(), toyecc.registered() as (ToyPub, ToyPriv):
+        for i in range(ctx.budget(12, 200)):
+            cm, comps = B.gen_file(r, enc_prob=0.3, max_comps=2)
+            comps = [c for c in comps if len(c[1]) <= 200]
+            blocks, encs, decs = C.gen_setup(r)
+            key = C.gen_key(r)
+            toyecc.reset()
+            w = C.impl_bec2_write(cm, comps, blocks, key, encs, ToyPub, ToyPriv)
+            nk = toyecc.STATE["nk"]
+            qf = B.qfile_new(cm, comps)
+            qb = qlist([C.q_block(b) for b in blocks], "authblock")
+            qe = qlist([C.q_encryptor(e) for e in encs], "encryptor")
+            exprs.append("res_eqb (prod_eqb str_eqb N.eqb) (a_write (fst (t_new %s %s (Some %s) 0)) %s 0) %s" % (
+                qf, qb, qbytes(key), qe, qres(w, lambda t: "(%s, %s)" % (B.qstr(t), qN(nk)))))
+            descr.append(("write[real AES]", cm, comps, blocks, key, encs))
+            ctx.case(("aes-w", repr(cm), repr(comps), repr(blocks), key))
+            if w[0] == "ok":
+                toyecc.reset()
+                rd = C.impl_bec2_read(w[1], decs, True, ToyPub, ToyPriv)
+                nr = toyecc.STATE["nr"]
+                qd = qlist([C.q_encryptor(e) for e in decs], "encryptor")
+                exprs.append("res_eqb (prod_eqb bec2_eqb N.eqb) (a_read %s %s true 0) %s" % (
+                    B.qstr(w[1]), qd, qres(rd, lambda o: "(%s, %s)" % (C.q_bec2_obj(o), qN(nr)))))
+                descr.append(("read[real AES]", w[1], decs))
+                ctx.case(("aes-r", w[1], repr(decs)))
+    bad = ctx.coq_eval("c02aes", IMPORTS, exprs, preamble=C.preamble() + AES_COQ, shard=6)
+    if bad is None:
+        return
+    ctx.traces += len(exprs)
+    ctx.extra["real_aes_correspondence_cases"] = len(exprs)
+    for i in bad[:10]:
+        ctx.broken("correspondence: Model.Bec2 over the pyaes model differs from the implementation with the real AES plug-in on %s" % descr[i][0],
+                   repr(descr[i])[:1500])
 
 
 # ---- search on the real implementation (real plug-ins) -------------------------
